@@ -105,6 +105,7 @@ type Goroutine struct {
 	finished bool
 	name     string
 	vc       VC
+	readySeq int // when the goroutine last became runnable (created or woken)
 }
 
 func (r *Run) get(fr *Frame, v ssa.Value) Value {
@@ -216,7 +217,8 @@ func (r *Run) global(g *ssa.Global) *Object {
 
 func (r *Run) newGoroutine(name string) *Goroutine {
 	r.nextGor++
-	g := &Goroutine{id: r.nextGor, name: name}
+	r.readyCnt++
+	g := &Goroutine{id: r.nextGor, name: name, readySeq: r.readyCnt}
 	r.gors = append(r.gors, g)
 	return g
 }
